@@ -28,6 +28,13 @@ OS contract (trusted, stated, *not* assumed silently): `open` returns -1 or a no
 An environment answering with more than `n` bytes is outside the contract: the model stops with
 `overlong` (the real code would have its buffer overrun by the kernel and `xlen` wrap around).
 `int i` conversions: requests are ≤ 2^20 and answers ≤ request, far below 2^31.
+
+`errno` and the value of `sleep`: a failing `open`/`read` also stores an error code in `errno` (ENOENT, EMFILE, EINTR,
+EBADF, …; an answer ≥ 0 may leave a stale one behind) and an interrupted `sleep(1)` returns 1.  The code reads neither
+(`errno` does not occur in the file, the result of `sleep` is discarded), so the model takes an environment of `Answer`s
+= outcome + errno + sleep result and *forgets* the last two (`forget`, `runCallsA`): every failure is the same failure.
+The correspondence stream plays every errno of a representative set to the real code and compares with this
+errno-free model, which is how a dependence of the code on the error code shows up.
 -/
 namespace Nfl.RB
 
@@ -147,5 +154,20 @@ def delivered : List Outcome → List Nat
   | [] => []
   | .readBytes bs :: s => bs ++ delivered s
   | _ :: s => delivered s
+
+/-- an answer of the operating system as the code could observe it: the value returned (`out`), what the call left in
+    `errno` (0 = untouched) and what the first `sleep` after it returns (unslept seconds) -/
+structure Answer where
+  out : Outcome
+  errno : Nat := 0
+  sleepRet : Nat := 0
+  deriving DecidableEq, Repr, Inhabited
+
+/-- what the code looks at -/
+def forget (s : List Answer) : List Outcome := s.map (·.out)
+
+/-- a sequence of calls against an environment of full answers -/
+def runCallsA (fd0 : Option Nat) (s : List Answer) (xlens : List Nat) : List Result :=
+  runCalls fd0 (forget s) xlens
 
 end Nfl.RB
